@@ -12,9 +12,10 @@ def raw13 (role : Role) : List Cfg :=
   [Kx.dhe, Kx.ecdhe, Kx.psk].flatMap fun kx =>
   bools.flatMap fun reqCert => bools.flatMap fun clientCert => bools.flatMap fun hrr =>
   [Resume.none, Resume.ticket].flatMap fun resume =>
-  bools.flatMap fun compCert => bools.flatMap fun hb => bools.map fun compat =>
+  bools.flatMap fun compCert => bools.flatMap fun hb => bools.flatMap fun compat =>
+  bools.map fun keypair =>
   { role, ver := .tls13, kx, reqCert, clientCert, tickets := false, npn := false, hrr, resume,
-    compCert, hb, compat }
+    compCert, hb, compat, keypair }
 
 /-- SSLv3 / TLS 1.0–1.2 configurations (no HRR, no compressed certificates, no compat mode) -/
 def raw12 (role : Role) (ver : Ver) : List Cfg :=
@@ -24,7 +25,7 @@ def raw12 (role : Role) (ver : Ver) : List Cfg :=
   [Resume.none, Resume.sessionId, Resume.ticket].flatMap fun resume =>
   bools.map fun hb =>
   { role, ver, kx, reqCert, clientCert, tickets, npn, hrr := false, resume, compCert := false, hb,
-    compat := false }
+    compat := false, keypair := false }
 
 def cfgsOf (role : Role) (ver : Ver) : List Cfg :=
   (match ver with
@@ -34,7 +35,7 @@ def cfgsOf (role : Role) (ver : Ver) : List Cfg :=
 theorem mem_bools (b : Bool) : b ∈ bools := by cases b <;> simp [bools]
 
 theorem mem_cfgsOf (c : Cfg) (h : c.valid = true) : c ∈ cfgsOf c.role c.ver := by
-  obtain ⟨role, ver, kx, reqCert, clientCert, tickets, npn, hrr, resume, compCert, hb, compat⟩ := c
+  obtain ⟨role, ver, kx, reqCert, clientCert, tickets, npn, hrr, resume, compCert, hb, compat, keypair⟩ := c
   simp only [cfgsOf]
   cases ver
   case tls13 =>
@@ -47,7 +48,7 @@ theorem mem_cfgsOf (c : Cfg) (h : c.valid = true) : c ∈ cfgsOf c.role c.ver :=
     subst ht; subst hn
     simp only [raw13, List.mem_flatMap, List.mem_map]
     refine ⟨kx, ?_, reqCert, mem_bools _, clientCert, mem_bools _, hrr, mem_bools _, resume, ?_,
-            compCert, mem_bools _, hb, mem_bools _, compat, mem_bools _, rfl⟩
+            compCert, mem_bools _, hb, mem_bools _, compat, mem_bools _, keypair, mem_bools _, rfl⟩
     · rcases hk with h1 | h1 | h1 <;> simp [h1]
     · rcases hr with h1 | h1 <;> simp [h1]
   case ssl3 =>
@@ -56,8 +57,9 @@ theorem mem_cfgsOf (c : Cfg) (h : c.valid = true) : c ∈ cfgsOf c.role c.ver :=
     have hh : hrr = false := by cases hrr; rfl; simp [Cfg.valid, Cfg.isTls13] at h
     have hc : compCert = false := by cases compCert; rfl; simp [Cfg.valid, Cfg.isTls13] at h
     have hm : compat = false := by cases compat; rfl; simp [Cfg.valid, Cfg.isTls13] at h
+    have hp : keypair = false := by cases keypair; rfl; simp [Cfg.valid, Cfg.isTls13] at h
     have hk : kx ≠ .psk := by cases kx <;> simp [Cfg.valid, Cfg.isTls13] at h ⊢
-    subst hh; subst hc; subst hm
+    subst hh; subst hc; subst hm; subst hp
     simp only [raw12, List.mem_flatMap, List.mem_map]
     refine ⟨kx, ?_, reqCert, mem_bools _, clientCert, mem_bools _, tickets, mem_bools _, npn, mem_bools _,
             resume, ?_, hb, mem_bools _, rfl⟩
@@ -69,8 +71,9 @@ theorem mem_cfgsOf (c : Cfg) (h : c.valid = true) : c ∈ cfgsOf c.role c.ver :=
     have hh : hrr = false := by cases hrr; rfl; simp [Cfg.valid, Cfg.isTls13] at h
     have hc : compCert = false := by cases compCert; rfl; simp [Cfg.valid, Cfg.isTls13] at h
     have hm : compat = false := by cases compat; rfl; simp [Cfg.valid, Cfg.isTls13] at h
+    have hp : keypair = false := by cases keypair; rfl; simp [Cfg.valid, Cfg.isTls13] at h
     have hk : kx ≠ .psk := by cases kx <;> simp [Cfg.valid, Cfg.isTls13] at h ⊢
-    subst hh; subst hc; subst hm
+    subst hh; subst hc; subst hm; subst hp
     simp only [raw12, List.mem_flatMap, List.mem_map]
     refine ⟨kx, ?_, reqCert, mem_bools _, clientCert, mem_bools _, tickets, mem_bools _, npn, mem_bools _,
             resume, ?_, hb, mem_bools _, rfl⟩
